@@ -261,10 +261,8 @@ void NifFile::SetShapeOrder(const std::vector<std::string>& order) {
 	}
 
 	auto root = GetRootNode();
-	if (root) {
-		sortState.newIndex = GetBlockID(root);
-		SetSortIndices(sortState.newIndex, sortState);
-	}
+	if (root)
+		SetSortIndices(GetBlockID(root), sortState);
 
 	for (size_t i = 0; i < sortState.newIndices.size(); i++) {
 		uint32_t index = static_cast<uint32_t>(i);
@@ -416,6 +414,10 @@ void NifFile::SortController(NiTimeController* controller, SortState& sortState)
 }
 
 void NifFile::SortCollision(NiObject* parent, uint32_t parentIndex, SortState& sortState) {
+	// A block that is already being sorted further up the call stack is part of a reference cycle
+	if (!sortState.collisionIndicesInProgress.insert(parentIndex).second)
+		return;
+
 	auto constraint = dynamic_cast<bhkConstraint*>(parent);
 	if (constraint) {
 		for (auto& entityId : constraint->entityRefs) {
@@ -470,6 +472,8 @@ void NifFile::SortCollision(NiObject* parent, uint32_t parentIndex, SortState& s
 				SortCollision(child, id, sortState);
 		}
 	}
+
+	sortState.collisionIndicesInProgress.erase(parentIndex);
 }
 
 void NifFile::SortShape(NiShape* shape, SortState& sortState) {
@@ -541,7 +545,8 @@ void NifFile::SortGraph(NiNode* root, SortState& sortState) {
 
 			if (isRootNode) {
 				// Reorder shapes on root node if order is provided
-				if (sortState.rootShapeOrder.size() == shapeIndices.size()) {
+				if (sortState.rootShapeOrder.size() == shapeIndices.size()
+					&& std::is_permutation(sortState.rootShapeOrder.begin(), sortState.rootShapeOrder.end(), shapeIndices.begin())) {
 					std::vector<uint32_t> newShapeIndices(shapeIndices.size());
 					for (size_t si = 0; si < sortState.rootShapeOrder.size(); si++) {
 						auto it = find(shapeIndices, sortState.rootShapeOrder[si]);
@@ -582,7 +587,8 @@ void NifFile::SortGraph(NiNode* root, SortState& sortState) {
 
 			if (isRootNode) {
 				// Reorder shapes on root node if order is provided
-				if (sortState.rootShapeOrder.size() == shapeIndices.size()) {
+				if (sortState.rootShapeOrder.size() == shapeIndices.size()
+					&& std::is_permutation(sortState.rootShapeOrder.begin(), sortState.rootShapeOrder.end(), shapeIndices.begin())) {
 					std::vector<uint32_t> newShapeIndices(shapeIndices.size());
 					for (size_t si = 0; si < sortState.rootShapeOrder.size(); si++) {
 						auto it = find(shapeIndices, sortState.rootShapeOrder[si]);
